@@ -563,6 +563,8 @@ def run(ctx):
     import extra_oracles
     from e3nn import o3 as _o3
     extra_oracles.c12_identity_history(ctx, _o3)
+    import extra_oracles as _xo
+    _xo.api_history_and_dtype(ctx, "C12")
     ctx.notes["rule"] = (
         "Every function of _rotation.py is run on: the grid of Euler triples with all multiples of pi/2 in [-2pi,2pi] "
         "(+3 generic values per axis), seeded random rotations (angles up to +-20), matrices/quaternions/axis-angles "
